@@ -128,6 +128,9 @@ def run_A(ctx):
     from stackscope import lowlevel
     lowlevel.set_trickery_enabled(False)
     p = params(ctx.tier)
+    # a failure may depend on what this process analysed before (memoised per-code facts): the replay file therefore names
+    # the shard, and --replay re-runs the shard's deterministic sequence up to the failing program
+    hist = {"leg": "A", "history": {"tier": ctx.tier, "shard": ctx.shard, "nshards": ctx.nshards, "seed": ctx.seed}}
     seen = set()
 
     def space():
@@ -143,12 +146,25 @@ def run_A(ctx):
     idx = 0
     for body in space():
         for kind in KINDS:
-            if not ps.kind_ok(body, kind) or not ps.nontrivial(body, kind):
+            if not ps.kind_ok(body, kind):
+                continue
+            if not ps.nontrivial(body, kind):
+                # programs without any with-block are observed too (expected: no contexts): their short-lived code
+                # objects pass through the analysis and are freed again, which is the history that an address- or
+                # equality-keyed memo of per-code facts would get wrong for the programs that follow
+                if not ps.has(body, ("susp",)) or ps.has(body, ps.WITH_KINDS):
+                    continue
+                idx += 1
+                if not ctx.mine(idx):
+                    continue
+                npaths, nobs = run_program(body, kind, ctx, ReferentsObserver, case_extra=hist)
+                ctx.count("withless_programs")
+                ctx.count("evaluations", nobs)
                 continue
             idx += 1
             if not ctx.mine(idx):
                 continue
-            npaths, nobs = run_program(body, kind, ctx, ReferentsObserver, case_extra={"leg": "A"})
+            npaths, nobs = run_program(body, kind, ctx, ReferentsObserver, case_extra=hist)
             ctx.count("programs")
             ctx.count("distinct_nontrivial")
             ctx.count("paths", npaths)
@@ -549,7 +565,41 @@ def replay(case):
     from stackscope import lowlevel
     if case.get("leg") == "A":
         lowlevel.set_trickery_enabled(False)
-        return replay_case(case, ReferentsObserver)
+        out = replay_case(case, ReferentsObserver)
+        if out or not case.get("history"):
+            return out
+        # not reproducible in isolation: re-run the shard's sequence (same process history) and pick this case out
+        h = case["history"]
+
+        class Rctx(object):
+            tier = h["tier"]
+            shard = h["shard"]
+            nshards = h["nshards"]
+            seed = h["seed"]
+            args = {"leg": "A"}
+
+            def __init__(s):
+                s.v = []
+                s.exhaustive = True
+
+            def mine(s, index):
+                return (index + s.seed) % s.nshards == s.shard
+
+            def count(s, *a):
+                pass
+
+            def sample(s, *a):
+                pass
+
+            def inflight(s, *a):
+                pass
+
+            def violation(s, c, detail, sig):
+                if c.get("src") == case.get("src") and c.get("kind") == case.get("kind") and c.get("prefix") == case.get("prefix"):
+                    s.v.append({"detail": detail, "note": "reproduced by replaying the shard history"})
+        r = Rctx()
+        run_A(r)
+        return r.v
     if case.get("leg") == "B":
         lowlevel.set_trickery_enabled(True)
         st = {"selftest": True} if case.get("selftest") else {}
